@@ -3487,6 +3487,24 @@ class Mailbox:
 #
 async def _helper_rename_folder(mbox: Mailbox, new_name: str) -> None:
     """
+    Rename a folder that is NOT the `inbox`.
+
+    While this is going on nobody else may look the mailbox up by its old or
+    by its new name (see `IMAPUserServer.get_mailbox`.)
+    """
+    names = (mbox.name, new_name)
+    server = mbox.server
+    server.renaming.update(names)
+    try:
+        await _do_helper_rename_folder(mbox, new_name)
+    finally:
+        server.renaming.difference_update(names)
+
+
+####################################################################
+#
+async def _do_helper_rename_folder(mbox: Mailbox, new_name: str) -> None:
+    """
     Breaking the logic for renaming a folder that is NOT the `inbox` out
     from the class method.
 
@@ -3552,7 +3570,7 @@ async def _helper_rename_folder(mbox: Mailbox, new_name: str) -> None:
         # If this is the mbox we were passed in, we already have a read
         # lock so we do not need to acquire it.
         #
-        old_mbox = await srvr.get_mailbox(old)
+        old_mbox = await srvr.get_mailbox(old, renaming=True)
         if old_mbox.name == mbox.name:
             await _do_rename_folder(old_mbox, old_id, new_mbox_name)
         else:
